@@ -204,7 +204,64 @@ def _frac(x):
     return Fraction(int(x.p), int(x.q)) if hasattr(x, "p") else Fraction(int(x))
 
 
+def check_call_sites(repo, chk):
+    """the selection rules are correct for the arguments they are GIVEN: the call sites hand them the right ones"""
+    from ..sym import PyFunc, SelfObj
+    CORE = "tf_pwa/amp/core.py"
+    # (S-bind) Decay.get_ls_list binds each quantum number of the decay to the parameter of the same meaning
+    chk.rule("S-bind", "Decay.get_ls_list interpreted on a decay whose mother has J, P and C all different (J = 2, P = -1, C = +1; daughters with distinct spins and parities): GetA2BC_LS_list receives ja / jb / jc = the spins, pa / pb / pc = the parities, p_break = the decay's flag and ca = the mother's C-parity when c_break is off (None when it is on)")
+    dcls = repo.cls(PAR + "::Decay")
+    fn = dcls.methods.get("get_ls_list")
+    target = repo.fn(PAR + "::GetA2BC_LS_list")
+    if fn is None:
+        raise AnalysisError("anchor vanished: Decay.get_ls_list")
+    for c_break in (False, True):
+        for p_break in (False, True):
+            got = {}
+
+            def rec(tr, args, kwargs, node):
+                got.update(Translator.bound_args(target, args, kwargs))
+                return [(sp.Integer(0), sp.Integer(1))]
+
+            core = SelfObj(None, {"J": sp.Integer(2), "P": sp.Integer(-1), "C": sp.Integer(1)})
+            b = SelfObj(None, {"J": sp.Integer(1), "P": sp.Integer(-1), "C": sp.Integer(-1)})
+            c = SelfObj(None, {"J": sp.Rational(0), "P": sp.Integer(1), "C": None})
+            so = SelfObj(dcls, {"core": core, "outs": [b, c], "p_break": p_break, "c_break": c_break})
+            try:
+                Translator(repo, hooks={target.key: rec, "allow_attr_store": True}, max_depth=2).call_fn(fn, [], self_obj=so)
+            except Unmodelled as e:
+                raise AnalysisError("Decay.get_ls_list cannot be interpreted: %s" % e)
+            want = {"ja": sp.Integer(2), "jb": sp.Integer(1), "jc": sp.Integer(0), "pa": sp.Integer(-1), "pb": sp.Integer(-1), "pc": sp.Integer(1), "p_break": p_break, "ca": None if c_break else sp.Integer(1)}
+            wrong = {k: (got.get(k), v) for k, v in want.items() if got.get(k) != v}
+            chk.oblige("S-bind", "get_ls_list (p_break=%s, c_break=%s): selection rules receive the decay's own quantum numbers" % (p_break, c_break), not wrong)
+            if wrong:
+                k0 = sorted(wrong)[0]
+                chk.violation("S-bind", fn.key, "binding:%s" % k0, "with p_break=%s, c_break=%s the selection rules receive %s = %s, the decay has %s: couplings are selected for another particle's quantum numbers (a mother with C != P gets the wrong list)" % (p_break, c_break, k0, wrong[k0][0], wrong[k0][1]), file=PAR, line=fn.lineno)
+    # (S-opts) options of one decay mode do not leak into the mother's other modes
+    chk.rule("S-opts", "get_decay interpreted twice for one mother particle that carries a decay_params table: the options of the first mode (l_list, p_break ...) and the production options of its daughters are handed to that decay only - the mother's decay_params table is unchanged afterwards and the second mode receives only its own options")
+    gd = repo.fn(CORE + "::get_decay")
+    seen = []
+    hooks = {"allow_attr_store": True}
+    for g in repo.func_by_name.get("get_decay_model", []):
+        hooks[g.key] = lambda tr, args, kwargs, node: PyFunc(lambda core_, outs_, **kw: seen.append(dict(kw)) or ("decay", len(seen)))
+    base = {"model": "default"}
+    core = SelfObj(None, {"decay_params": dict(base)})
+    d1 = SelfObj(None, {"production_params": {"has_ql": False}})
+    d2 = SelfObj(None, {})
+    try:
+        tr = Translator(repo, hooks=dict(hooks, **{"builtin.getattr": None}), max_depth=2)
+        tr.call_fn(gd, [core, [d1, d2]], {"l_list": [sp.Integer(0)], "p_break": True})
+        tr.call_fn(gd, [core, [d2, d2]], {})
+    except Unmodelled as e:
+        raise AnalysisError("get_decay cannot be interpreted: %s" % e)
+    ok = len(seen) == 2 and core.attrs["decay_params"] == base and seen[0].get("l_list") == [sp.Integer(0)] and seen[0].get("p_break") is True and seen[0].get("has_ql") is False and "l_list" not in seen[1] and "p_break" not in seen[1] and "has_ql" not in seen[1]
+    chk.oblige("S-opts", "get_decay(A -> b c, l_list=[0], p_break=True) then get_decay(A -> c c): second mode options %s, mother's table %s" % (seen[1] if len(seen) > 1 else "?", core.attrs["decay_params"]), ok)
+    if not ok:
+        chk.violation("S-opts", gd.key, "leak", "after get_decay(A -> b c, l_list=[0], p_break=True) the mother's decay_params table is %s and the next mode of the same mother is built with the options %s: options of one decay mode (and production options of its daughters) leak into every later decay of the particle, so allowed couplings of those modes are dropped" % (core.attrs["decay_params"], seen[1] if len(seen) > 1 else seen), file=CORE, line=gd.lineno)
+
+
 def run(repo, chk, tier):
+    check_call_sites(repo, chk)
     chk.rule("S-enum", "GetA2BC_LS_list, interpreted as a whole on a grid of spins x parities (incl. unknown) x p_break x C-parity, returns the textbook list of (l, s): triangle rules in unit steps with both ends, l integer, parity and C-parity filters, each coupling once and in order")
     fn = repo.fn(PAR + "::GetA2BC_LS_list")
     if fn.params[:3] != ["ja", "jb", "jc"]:
